@@ -87,7 +87,9 @@ type poolCase struct {
 	// IdleAll: idle timeout 1 ns (a sweep closes every idle connection); otherwise 1 h (closes none)
 	IdleAll bool `json:"idle_all"`
 	// AvoidKnown: a Get that would meet the conditions of findings C24-F1/F2 (scale-out while a
-	// capacity reduction or Close is waiting for connections) is issued with an expired context instead
+	// capacity reduction or Close is waiting for connections) is issued with an expired context instead;
+	// a SetCapacity increase during a waiting reduction (F2) and a Close during a waiting SetCapacity
+	// reduction (F5) are skipped
 	AvoidKnown bool     `json:"avoid_known"`
 	Ops        []poolOp `json:"ops"`
 }
@@ -297,6 +299,7 @@ type history struct {
 	closing     bool // Close has been called
 	taintF1     bool // a Get was served by a scale-out while Close was waiting for connections
 	taintF2     bool // a Get was served by a scale-out while a capacity reduction was waiting
+	taintF5     bool // Close was called while a SetCapacity reduction was still collecting slots
 	known       string
 	knownWhat   string
 	step        int
@@ -321,6 +324,8 @@ func (h *history) fail(kind, f string, a ...interface{}) {
 		h.known, h.knownWhat = "C24-F1", msg
 	case h.taintF2 && !h.taintF1 && kind == "over_max":
 		h.known, h.knownWhat = "C24-F2", msg
+	case h.taintF5 && !h.taintF1 && (kind == "closed_early" || kind == "put_closed_chan"):
+		h.known, h.knownWhat = "C24-F5", msg
 	default:
 		h.o.Violation = msg
 	}
@@ -449,6 +454,8 @@ func (h *history) collect() {
 		kind := "identity"
 		if h.closing && capN > 0 {
 			kind = "revived"
+		} else if h.closing && len(h.held) > 0 {
+			kind = "closed_early" // Close has returned (nothing is parked) with connections still out
 		}
 		if int64(chanLen+len(h.held)) != capN {
 			h.fail(kind, "no operation in progress: %d idle slots in the channel + %d handed out != capacity %d", chanLen, len(h.held), capN)
@@ -603,6 +610,13 @@ func (h *history) exec(op poolOp) {
 	case "close":
 		if h.closing {
 			return
+		}
+		if len(h.parkedWorkers("setcap")) > 0 {
+			if h.c.AvoidKnown {
+				h.lbl["avoided_known_trigger"] = true
+				return
+			}
+			h.taintF5 = true
 		}
 		h.closing = true
 		w := h.r.spawn("close", func(w *worker) { rp.Close() })
